@@ -3,52 +3,87 @@
     PARTIAL BY NATURE: the property is a statement about two third-party regexp engines (github.com/grafana/regexp and
     the WebAssembly build of RE2 behind github.com/wasilibs/go-re2).  They are not modelled; they are Section
     parameters of Model/HybridRe.v and the theorems quantify over them.  What is proved is the exact reduction of the
-    property to engine agreement:  results are threshold-independent  IFF  the two engines return the same result on
-    the inputs concerned.  Engine agreement itself is CHECKED, not proved, by the correspondence run (searches under
-    ZOEKT_RE2_THRESHOLD_BYTES in {-1,0,1,64,4096} on generated corpora x regexps must coincide). *)
-From ZV Require Import Lib.Base Model.HybridRe.
+    property to engine agreement ON THE SAME BYTES:  results are threshold-independent  IFF  the two engines return the
+    same result on the input concerned.  The dispatch the theorems speak about, [find_all_src], is an interpreter of the
+    dispatch READ FROM THE GO SOURCE on every run (translator/hybridre2 -> Generated/HybridRe2.v): the conditions of
+    Compile / useRE2 and the body of Regexp.FindAllIndex path by path, each leaf recording which engine is called and
+    whether it receives the method's own untouched parameters.  Whatever a branch might do to its input before the
+    engine sees it is an arbitrary function [xf] (limit: [xl]), uninterpreted conditions are an arbitrary [opq]; the
+    theorems hold for ALL of them only because the generated tree passes the checker [tree_ok] (a vm_compute obligation):
+    a branch that pre-processes its input (a slice, a reassigned variable) breaks the obligation and with it every
+    theorem below.  Engine agreement itself is CHECKED, not proved, by the correspondence run (searches under
+    ZOEKT_RE2_THRESHOLD_BYTES in {-1, 0, 1, 64, 4096, largest document + 1, 2^30} on generated corpora x regexps must coincide). *)
+From Coq Require Import String List ZArith Bool.
+From ZV Require Import Lib.Base Model.HybridReSyntax Generated.HybridRe2 Model.HybridRe Proofs.HybridRe.
+Import ListNotations.
 Open Scope Z_scope.
 
+(** The dispatch written in the source is the specified one: the engine is chosen by (compiled, size >= threshold) alone
+    and BOTH branches hand the engine the same bytes b and the same limit n — no pre-processing on either branch. *)
+Theorem C28_source_dispatch_exact : forall (R T L O : Type) (len : T -> nat) (grafana re2 : R -> T -> L -> O)
+    (xf : T -> T) (xl : L -> L) (opq : nat -> T -> bool) thr r b n,
+  find_all_src R T L O len grafana re2 xf xl opq thr r b n
+  = Some (if re2_compiled thr && use_re2 thr (len b) then re2 r b n else grafana r b n).
+Proof. exact find_all_src_eq. Qed.
+Print Assumptions C28_source_dispatch_exact.
+
+(** Without any assumption on the engines: on a given regexp, input and limit, ALL threshold settings give the same result
+    if and only if the two engines agree THERE (same bytes, same limit).  So a disagreement of the engines on one
+    (regexp, valid input) pair is exactly a violation of the property, exhibited by the settings -1 (disabled) and 0 (always). *)
+Theorem C28_reduction_exact : forall (R T L O : Type) (len : T -> nat) (grafana re2 : R -> T -> L -> O)
+    (xf : T -> T) (xl : L -> L) (opq : nat -> T -> bool) r b n,
+  (forall thr1 thr2, find_all_src R T L O len grafana re2 xf xl opq thr1 r b n
+                     = find_all_src R T L O len grafana re2 xf xl opq thr2 r b n)
+  <-> grafana r b n = re2 r b n.
+Proof. exact find_all_src_reduction. Qed.
+Print Assumptions C28_reduction_exact.
+
+(** A setting above the input's size (RE2 compiled but not selected) gives what the disabled setting gives: the grafana
+    engine's result on the unmodified input. *)
+Theorem C28_above_size_is_disabled : forall (R T L O : Type) (len : T -> nat) (grafana re2 : R -> T -> L -> O)
+    (xf : T -> T) (xl : L -> L) (opq : nat -> T -> bool) thr r b n, Z.of_nat (len b) < thr ->
+  find_all_src R T L O len grafana re2 xf xl opq thr r b n = find_all_src R T L O len grafana re2 xf xl opq (-1) r b n
+  /\ re2_compiled thr = true /\ re2_compiled (-1) = false.
+Proof.
+  intros R T L O len grafana re2 xf xl opq thr r b n H.
+  destruct (find_all_src_above_size R T L O len grafana re2 xf xl opq thr r b n H) as [E C].
+  rewrite E, find_all_src_eq. auto.
+Qed.
+Print Assumptions C28_above_size_is_disabled.
+
 Section C28.
-  Variables R T O : Type.
+  Variables R T L O : Type.
   Variable len : T -> nat.
   Variable valid_utf8 : T -> Prop.
-  Variables grafana re2 : R -> T -> O.
-  Variable spec_find_all : R -> T -> O.   (* the common specification both engines are assumed to implement *)
+  Variables grafana re2 : R -> T -> L -> O.
+  Variable spec_find_all : R -> T -> L -> O.   (* the common specification both engines are assumed to implement *)
 
-  Hypothesis grafana_spec : forall r b, valid_utf8 b -> grafana r b = spec_find_all r b.
-  Hypothesis re2_spec : forall r b, valid_utf8 b -> re2 r b = spec_find_all r b.
+  Hypothesis grafana_spec : forall r b n, valid_utf8 b -> grafana r b n = spec_find_all r b n.
+  Hypothesis re2_spec : forall r b n, valid_utf8 b -> re2 r b n = spec_find_all r b n.
 
   (** Conditional on both engine hypotheses (trusted base): every threshold gives the specified result. *)
-  Theorem C28_threshold_irrelevant_partial : forall thr r b, valid_utf8 b ->
-    find_all R T O len grafana re2 thr r b = spec_find_all r b.
-  Proof.
-    intros thr r b Hv. unfold find_all. destruct (re2_compiled thr && use_re2 thr (len b)); auto.
-  Qed.
+  Theorem C28_threshold_irrelevant_partial : forall xf xl opq thr r b n, valid_utf8 b ->
+    find_all_src R T L O len grafana re2 xf xl opq thr r b n = Some (spec_find_all r b n).
+  Proof. exact (threshold_irrelevant R T L O len valid_utf8 grafana re2 spec_find_all grafana_spec re2_spec). Qed.
 
-  Corollary C28_any_two_settings_partial : forall env1 env2 r b, valid_utf8 b ->
-    find_all R T O len grafana re2 (parse_threshold env1) r b = find_all R T O len grafana re2 (parse_threshold env2) r b.
+  Corollary C28_any_two_settings_partial : forall xf xl opq env1 env2 r b n, valid_utf8 b ->
+    find_all_src R T L O len grafana re2 xf xl opq (parse_threshold_src env1) r b n
+    = find_all_src R T L O len grafana re2 xf xl opq (parse_threshold_src env2) r b n.
   Proof. intros. rewrite !C28_threshold_irrelevant_partial by assumption. reflexivity. Qed.
 End C28.
 Print Assumptions C28_threshold_irrelevant_partial.
 Print Assumptions C28_any_two_settings_partial.
 
-(** Without any assumption on the engines: on a given regexp and input, ALL threshold settings give the same result
-    if and only if the two engines agree there.  So a disagreement of the engines on one (regexp, valid input) pair is
-    exactly a violation of the property, exhibited by the settings -1 (disabled) and 0 (always). *)
-Theorem C28_reduction_exact : forall (R T O : Type) (len : T -> nat) (grafana re2 : R -> T -> O) r b,
-  (forall thr1 thr2, find_all R T O len grafana re2 thr1 r b = find_all R T O len grafana re2 thr2 r b)
-  <-> grafana r b = re2 r b.
+(** The conditions read from the source (constant `disabled`, the guard of Compile's go-re2 branch, the body of useRE2)
+    are the specified ones: unset/unparsable = -1, compiled iff 0 <= threshold, used iff 0 <= threshold <= len. *)
+Theorem C28_source_conditions : forall env thr n,
+  parse_threshold_src env = parse_threshold env /\
+  re2_compiled_src thr = (0 <=? thr) /\
+  use_re2_src thr (Z.of_nat n) = ((0 <=? thr) && (thr <=? Z.of_nat n)).
 Proof.
-  intros R T O len grafana re2 r b. split.
-  - intros H. specialize (H (-1) 0). unfold find_all in H.
-    replace (re2_compiled (-1) && use_re2 (-1) (len b)) with false in H by reflexivity.
-    replace (re2_compiled 0 && use_re2 0 (len b)) with true in H; [exact H|].
-    unfold re2_compiled, use_re2. simpl. symmetry. apply Z.leb_le. lia.
-  - intros E thr1 thr2. unfold find_all.
-    destruct (re2_compiled thr1 && use_re2 thr1 (len b)), (re2_compiled thr2 && use_re2 thr2 (len b)); congruence.
+  intros env thr n. split; [apply parse_threshold_src_eq|split; [apply re2_compiled_src_eq|apply use_re2_src_eq]].
 Qed.
-Print Assumptions C28_reduction_exact.
+Print Assumptions C28_source_conditions.
 
 (** The dispatch is monotone in the input size: once RE2 is used for some length it is used for all longer inputs;
     disabled (negative / unset / unparsable) never uses it; 0 always does. *)
@@ -56,21 +91,30 @@ Theorem C28_dispatch_shape : forall thr n n',
   (thr < 0 -> use_re2 thr n = false) /\ use_re2 0 n = true /\
   (use_re2 thr n = true -> (n <= n')%nat -> use_re2 thr n' = true) /\
   (use_re2 thr n = true -> re2_compiled thr = true).
-Proof.
-  intros thr n n'. unfold use_re2, re2_compiled. split; [|split; [|split]].
-  - intros H. apply Z.leb_gt in H. rewrite H. reflexivity.
-  - simpl. apply Z.leb_le. lia.
-  - intros H Hle. apply andb_true_iff in H. destruct H as [A B]. rewrite A. simpl.
-    apply Z.leb_le. apply Z.leb_le in B. lia.
-  - intros H. apply andb_true_iff in H. apply H.
-Qed.
+Proof. exact dispatch_shape. Qed.
 Print Assumptions C28_dispatch_shape.
 
-(** Non-vacuity: two concrete "engines" that differ on one input make the settings -1 and 0 differ, and a 64-byte
-    threshold switches engines exactly at 64 bytes. *)
+(** The model's two engine parameters stand for these library functions (read from the imports / call sites). *)
+Theorem C28_engines_pinned :
+  engine_compile_callees = expected_compile_callees /\ engine_packages = expected_engine_packages.
+Proof. exact engines_pinned. Qed.
+Print Assumptions C28_engines_pinned.
+
+(** Non-vacuity: two concrete "engines" that differ on one input make the settings -1 and 0 differ, a 64-byte threshold
+    switches engines exactly at 64 bytes, and the checker is not trivially true: the tree of a FindAllIndex that cuts the
+    input on the grafana branch when RE2 is compiled but not selected is rejected, as are a wrong engine and a capped limit. *)
 Example C28_nonvacuous :
-  let g := fun (_ : unit) (b : list N) => 0%N in
-  let e := fun (_ : unit) (b : list N) => 1%N in
-  find_all unit (list N) N (@length N) g e (-1) tt [1%N] <> find_all unit (list N) N (@length N) g e 0 tt [1%N] /\
-  use_re2 64 63 = false /\ use_re2 64 64 = true /\ parse_threshold None = -1 /\ re2_compiled (parse_threshold None) = false.
-Proof. vm_compute. repeat split; discriminate. Qed.
+  let g := fun (_ : unit) (b : list N) (_ : Z) => 0%N in
+  let e := fun (_ : unit) (b : list N) (_ : Z) => 1%N in
+  let fa := find_all_src unit (list N) Z N (@length N) g e (fun b => b) (fun n => n) (fun _ _ => true) in
+  fa (-1) tt [1%N] (-1) = Some 0%N /\ fa 0 tt [1%N] (-1) = Some 1%N /\ fa 2 tt [1%N] (-1) = Some 0%N /\
+  use_re2 64 63 = false /\ use_re2 64 64 = true /\ parse_threshold_src None = -1 /\ re2_compiled (parse_threshold None) = false /\
+  tree_ok (DIf (CAnd CCompiled CUsed) (DRet RE2 ArgParam ArgParam) (DRet Grafana ArgParam ArgParam)) = true /\
+  tree_ok (DIf CCompiled (DIf CUsed (DRet RE2 ArgParam ArgParam)
+                                    (DIf (COpaque 0) (DRet Grafana ArgDerived ArgParam) (DRet Grafana ArgParam ArgParam)))
+                         (DRet Grafana ArgParam ArgParam)) = false /\
+  tree_ok (DIf CUsed (DRet RE2 ArgParam ArgParam) (DRet Grafana ArgParam ArgParam)) = true /\
+  tree_ok (DIf CCompiled (DRet RE2 ArgParam ArgParam) (DRet Grafana ArgParam ArgParam)) = false /\
+  tree_ok (DIf (CAnd CCompiled CUsed) (DRet RE2 ArgParam ArgDerived) (DRet Grafana ArgParam ArgParam)) = false /\
+  tree_ok (DIf (COpaque 0) (DRet RE2 ArgParam ArgParam) (DRet Grafana ArgParam ArgParam)) = false.
+Proof. vm_compute. repeat split; reflexivity. Qed.
